@@ -173,6 +173,13 @@ type FireRec struct {
 	G    *smt.Term
 }
 
+// EnvRec: the environment cancels context Ctx at step Step (when G holds in the model).
+type EnvRec struct {
+	Step int
+	Ctx  Addr
+	G    *smt.Term
+}
+
 type Thread struct {
 	Key    string
 	Name   string
@@ -198,6 +205,8 @@ type M struct {
 
 	shared     map[Addr]bool   // per-round view (addresses are re-assigned each round)
 	sharedName map[string]bool // stable across rounds: allocation key + leaf offset
+	tryMutex   map[string]bool // mutexes (by allocation name) on which TryLock is called: their Unlock is visible
+	tryGrew    bool
 	blockKey   map[Addr]string
 	acc        map[Addr]*accInfo
 
@@ -233,6 +242,8 @@ type M struct {
 	ctxType, errType types.Type
 
 	Stats    struct{ Firings, Cfgs, MaxLive int }
+	EnvLog   []EnvRec
+	EnvOwner map[Addr][2]int // context object -> (thread, occurrence) of the vrt.CancelAnytime call that armed it
 	Single   bool            // the previous round saw one thread only: lock operations are invisible
 	MaxTerms int             // cap on the number of terms (0 = none)
 	funcs    map[string]bool // functions entered by the interpreter in the final round
@@ -248,6 +259,7 @@ func NewM(prog *ssa.Program, U, K int) *M {
 	m := &M{c: smt.New(), prog: prog, U: U, K: K}
 	m.shared = map[Addr]bool{}
 	m.sharedName = map[string]bool{}
+	m.tryMutex = map[string]bool{}
 	m.reset()
 	return m
 }
@@ -303,6 +315,8 @@ func (m *M) reset() {
 	m.Stats.Firings, m.Stats.Cfgs, m.Stats.MaxLive = 0, 0, 0
 	m.FireLog = nil
 	m.FinalLog = nil
+	m.EnvOwner = map[Addr][2]int{}
+	m.EnvLog = nil
 	m.funcs = map[string]bool{}
 	m.stubs = map[string]bool{}
 	m.cfgSeen = map[string]bool{}
@@ -836,9 +850,15 @@ func (m *M) record(p *path, a Addr, write, plain bool, instr ssa.Instruction) {
 	}
 }
 
+func (m *M) cellName(a Addr) string {
+	base := m.blockOf[a]
+	return fmt.Sprintf("%s+%d", m.blockKey[base], int(a-base))
+}
+
 // SharedUpdate recomputes the shared set from recorded accesses; returns true if it grew.
 func (m *M) SharedUpdate() bool {
-	grew := false
+	grew := m.tryGrew
+	m.tryGrew = false
 	for a, ai := range m.acc {
 		if len(ai.threads) >= 2 && ai.write && len(ai.lockset) == 0 && !m.shared[a] {
 			m.shared[a] = true
